@@ -94,6 +94,12 @@ type job struct {
 	Kind  string        `json:"kind"` // count | fault | crash
 	Case  Case          `json:"case"`
 	Fault *faultx.Fault `json:"fault,omitempty"`
+	// Policy biases the real scheduler: "" (eager), "index-last" (every storage
+	// operation of an index pipeline is held back ~1 ms, so a write function
+	// that does not wait for its pipelines returns first and their operations
+	// arrive on the ended transaction), "points-last" (the mirror image).
+	// A policy can only make a late use more likely, never fabricate one.
+	Policy string `json:"policy,omitempty"`
 }
 
 type viol struct {
@@ -225,10 +231,25 @@ func worker(raw json.RawMessage) (json.RawMessage, error) {
 			in.Proxy.Arm(nil, snapBase)
 		}
 	case "fault":
-		in.Proxy.Arm(j.Fault, snapBase)
+		in.Proxy.Arm(j.Fault, snapBase) // nil fault = the batch as it is, under a schedule policy
 	}
 	fmt.Fprintf(os.Stderr, "@@J-APPLY %s reject=%v fault=%v\n", st.op.Name, exp.Reject, j.Fault)
+	switch j.Policy {
+	case "index-last":
+		in.Proxy.Hook = func(pt faultx.Point) {
+			if pt.Writable && strings.HasPrefix(pt.Bucket, "index/") {
+				time.Sleep(time.Millisecond)
+			}
+		}
+	case "points-last":
+		in.Proxy.Hook = func(pt faultx.Point) {
+			if pt.Writable && (pt.Bucket == "points" || pt.Bucket == "internal") {
+				time.Sleep(time.Millisecond)
+			}
+		}
+	}
 	got := in.ApplySettled(st.op)
+	in.Proxy.Hook = nil
 	res.Failed = got.Err != nil
 	res.Fired = in.Proxy.Fired()
 	txCounts := in.Proxy.TxCounts()
@@ -249,6 +270,11 @@ func worker(raw json.RawMessage) (json.RawMessage, error) {
 	case "fault":
 		if !res.Failed && exp.Reject {
 			res.v("accepted-batch-that-must-be-rejected", "%s under %v", st.op.Name, j.Fault)
+		}
+		if j.Fault == nil {
+			if sig, detail := sl.CompareResult(st.op, exp, got); sig != "" {
+				res.v(sig, "%s", detail)
+			}
 		}
 	}
 	// ---- the state the call left behind ----
@@ -327,7 +353,7 @@ func clip(s string) string {
 }
 
 func master(cfg *harness.Config, rep *harness.Report) {
-	rep.Rule = "cases = start state {empty, 3 points warm, 3 points reopened cold} x batch {insert 1, insert 3, update every indexed field of 2 points, remove every indexed field, delete 2, and the validation rejections: duplicate id in batch, existing id last of 3, merged document over MaxPointSize, wrong field type; plus an index whose construction fails}; per case a counting run, then one run per fault point = every (bucket, kind in {Put, Delete, ForEach, Scan, BucketOpen, TxBegin}, ordinal) the batch issues, failing exactly that operation; and one run that takes a crash image of the file at every storage operation, when the transaction function returned, and after commit. Oracle: a failed call leaves observation battery + raw bucket digest identical to before, on the running instance and after reopen; a successful call equals the reference model; crash images before commit equal the state before, after commit the model after; storage use after transaction end is recorded by the proxy. distinct_nontrivial = fault points that fired"
+	rep.Rule = "cases = start state {empty, 3 points warm, 3 points reopened cold} x batch {insert 1, insert 3, update every indexed field of 2 points, remove every indexed field, delete 2, and the validation rejections: duplicate id in batch, existing id last of 3, merged document over MaxPointSize, wrong field type; plus an index whose construction fails}; per case a counting run, then one run per fault point = every (bucket, kind in {Put, Delete, ForEach, Scan, BucketOpen, TxBegin}, ordinal) the batch issues, failing exactly that operation; the first and last ordinal of every (bucket, kind) and the fault-free batch additionally under two schedule policies (index pipelines held back / point store held back); and one run that takes a crash image of the file at every storage operation, when the transaction function returned, and after commit. Oracle: a failed call leaves observation battery + raw bucket digest identical to before, on the running instance and after reopen; a successful call equals the reference model; crash images before commit equal the state before, after commit the model after; storage use after transaction end is recorded by the proxy. distinct_nontrivial = fault points that fired"
 	rep.Assumptions = []string{"Get cannot return an error in the storage API: reads are counted, not failed", "bbolt's own commit (page writes + fsync) is atomic: torn pages inside a commit are not enumerated", "goroutine interleavings inside the batch are those the real scheduler produced (schedule policies: see DESIGN.md)"}
 	p := pool.New(pool.Options{CPUsPerWorker: 2, JobTimeout: 90 * time.Second})
 	run := func(jobs []job) []pool.Result {
@@ -387,8 +413,13 @@ func master(cfg *harness.Config, rep *harness.Report) {
 			n := res.Counts[k]
 			step := 1
 			for ord := 1; ord <= n; ord += step {
-				fjobs = append(fjobs, job{Kind: "fault", Case: cjobs[i].Case, Fault: &faultx.Fault{Tx: 1, Bucket: bucket, Kind: kind, Ordinal: ord, Action: "fail"}})
+				f := &faultx.Fault{Tx: 1, Bucket: bucket, Kind: kind, Ordinal: ord, Action: "fail"}
+				fjobs = append(fjobs, job{Kind: "fault", Case: cjobs[i].Case, Fault: f})
 				faultPoints++
+				// the schedule policies on the first and last ordinal of every (bucket, kind)
+				if ord == 1 || ord == n || !cfg.Quick() {
+					fjobs = append(fjobs, job{Kind: "fault", Case: cjobs[i].Case, Fault: f, Policy: "index-last"}, job{Kind: "fault", Case: cjobs[i].Case, Fault: f, Policy: "points-last"})
+				}
 			}
 			if (n-1)%step != 0 {
 				fjobs = append(fjobs, job{Kind: "fault", Case: cjobs[i].Case, Fault: &faultx.Fault{Tx: 1, Bucket: bucket, Kind: kind, Ordinal: n, Action: "fail"}})
@@ -396,6 +427,8 @@ func master(cfg *harness.Config, rep *harness.Report) {
 			}
 		}
 		fjobs = append(fjobs, job{Kind: "crash", Case: cjobs[i].Case})
+		// the batch without an injected fault under both policies (rejections are faults of their own)
+		fjobs = append(fjobs, job{Kind: "fault", Case: cjobs[i].Case, Policy: "index-last"}, job{Kind: "fault", Case: cjobs[i].Case, Policy: "points-last"})
 	}
 	rep.Set("cases", len(cases))
 	rep.Set("fault_points", faultPoints)
@@ -447,7 +480,7 @@ func absorb(rep *harness.Report, j job, r pool.Result) *result {
 	rep.Add("comparisons", res.Checks)
 	rep.Outcome(res.Outcome)
 	for _, v := range res.Viols {
-		rep.Violate(harness.Violation{Sig: v.Sig, Detail: fmt.Sprintf("[%s | %s | %s] %s", j.Case.State, j.Case.Batch, faultStr(j.Fault), v.Detail), Replay: j})
+		rep.Violate(harness.Violation{Sig: v.Sig, Detail: fmt.Sprintf("[%s | %s | %s | policy %q] %s", j.Case.State, j.Case.Batch, faultStr(j.Fault), j.Policy, v.Detail), Replay: j})
 	}
 	return &res
 }
